@@ -1,6 +1,8 @@
 import CogentModel.Model.ControllerLf
 import CogentModel.Proofs.CtlLf
 import CogentModel.Proofs.CalcPure
+import CogentModel.Model.ControllerFail
+import CogentModel.Proofs.CtlFail
 import CogentModel.Props.C07
 /-! # C07 — likelihood-function level operations on the controller model
 
@@ -59,6 +61,60 @@ example :
        .postponedRaises [.setMotifProbs [(1, 4)]], .simple (.setParam 2 6)]
     (List.range 5).map s.values = [7, 4, 6, 46, 7046] ∧ s.stack = [] ∧ s.suspended = false := by
   decide
+
+/-! ## definitions whose `update()` raises part way through the walk -/
+section failing
+
+/-- **controller_dirty_never_lost**: with definitions whose `update()` may raise (an alignment that
+cannot be converted, a calc that fails), after ANY history of assignments and nested blocks in which
+any number of recalculations were cut short by the exception (at an assignment, or in the
+`finally:` at the end of a block), every definition that is NOT marked dirty holds its rule applied
+to the current values, and the block stack / suspension flag are intact.  Hence as soon as one
+recalculation completes (`changed = []`), EVERY definition is consistent with the current settings —
+whatever failed before, the caller only has to repair the offending input. -/
+theorem controller_dirty_never_lost (g : CtlF.Graph V) (hwf : CtlF.WF g) (s0 : Ctl.St V)
+    (h0 : CtlF.Inv g s0) (hist : List (Op V)) :
+    CtlF.Inv g (CtlF.run g s0 hist) ∧
+    ((CtlF.run g s0 hist).changed = [] → ∀ k, k < g.length → CtlF.LocalOK g (CtlF.run g s0 hist) k) := by
+  have hI : CtlF.Inv g (CtlF.run g s0 hist) := by
+    induction hist generalizing s0 with
+    | nil => exact h0
+    | cons o os ih =>
+      simp only [CtlF.run]
+      exact ih _ (CtlF.step_inv g hwf s0 o h0).1
+  refine ⟨hI, fun hc k hk => hI.j k hk ?_⟩
+  rw [hc]; simp
+
+/-- a recalculation that completes (at an assignment outside every block, or at the end of the
+outermost block) clears the dirty set — so the situation of the theorem above is reached by any
+single operation that returns normally -/
+theorem completed_walk_cleans (g : CtlF.Graph V) (hwf : CtlF.WF g) (s : Ctl.St V) (hI : CtlF.Inv g s)
+    (o : Op V) (hok : (CtlF.step g s o).2 = true) (hns : (CtlF.step g s o).1.suspended = false)
+    (hwalk : s.stack ≠ [] ∧ o ≠ Op.enter ∨ ∃ k v, o = Op.assign k v) :
+    (CtlF.step g s o).1.changed = [] :=
+  (CtlF.step_inv g hwf s o hI).2 hok hns hwalk
+
+/-- non-vacuity: leaves 0 (alignment), 1 (kappa); 2 = f(alignment) raises when the alignment is 9;
+3 = g(kappa); 4 = h(2, 3).  In one block kappa := 5 and alignment := 9: the end-of-block walk raises
+at definition 2 (3 and 4 are still dirty); the caller repairs ONLY the alignment: everything,
+including what depends on kappa, is recomputed. -/
+def exFailG : CtlF.Graph Int :=
+  [.leaf, .leaf, .derived [0] (fun l => if l.getD 0 0 = 9 then none else some (l.getD 0 0 + 100)),
+   .derived [1] (fun l => some (l.getD 0 0 * 10)), .derived [2, 3] (fun l => some (l.getD 0 0 + l.getD 1 0))]
+
+def exFailS0 : Ctl.St Int :=
+  { values := fun k => [1, 2, 101, 20, 121].getD k 0, setting := fun k => [1, 2].getD k 0,
+    changed := [], suspended := false, stack := [] }
+
+example : (CtlF.step exFailG (CtlF.run exFailG exFailS0 [.enter, .assign 1 5, .assign 0 9]) .exit).2 = false ∧
+    (CtlF.run exFailG exFailS0 [.enter, .assign 1 5, .assign 0 9, .exit]).suspended = false ∧
+    (CtlF.run exFailG exFailS0 [.enter, .assign 1 5, .assign 0 9, .exit]).changed ≠ [] ∧
+    (List.range 5).map (CtlF.run exFailG exFailS0 [.enter, .assign 1 5, .assign 0 9, .exit, .assign 0 3]).values
+      = [3, 5, 103, 50, 153] ∧
+    (CtlF.run exFailG exFailS0 [.enter, .assign 1 5, .assign 0 9, .exit, .assign 0 3]).changed = [] := by
+  decide
+
+end failing
 
 /-! ## the calculator is a pure function of the vector, whatever its history -/
 section pure
